@@ -3,6 +3,7 @@ package main
 import (
 	"fmt"
 	"regexp"
+	"sync"
 	"go/token"
 	"go/types"
 	"sort"
@@ -80,6 +81,7 @@ type Session struct {
 	factBlk  []*ssa.BasicBlock // top-level block that produced each fact (nil: global)
 	curBlk   *ssa.BasicBlock
 	anc      map[*ssa.BasicBlock]map[*ssa.BasicBlock]bool
+	mu       sync.Mutex
 	subst    [][2]string // textual substitutions applied to every query (case splits)
 	newObjs  []newObj
 	recvRef  string
@@ -150,6 +152,8 @@ func (s *Session) fact(f string) {
 
 // ancestors of b in the top-level CFG (forward edges only), including b
 func (s *Session) ancestors(b *ssa.BasicBlock) map[*ssa.BasicBlock]bool {
+	s.mu.Lock()
+	defer s.mu.Unlock()
 	if s.anc == nil {
 		s.anc = map[*ssa.BasicBlock]map[*ssa.BasicBlock]bool{}
 	}
@@ -232,7 +236,7 @@ func (s *Session) entryClosure(key string, leafTy types.Type, twoLevel bool) {
 	switch sortOfType(leafTy) {
 	case "Slice":
 		body = and(app("<", app("s.ref", sel), s.alloc0), app("<=", "0", app("s.ref", sel)), app("<=", "0", app("s.off", sel)), app("<=", "0", app("s.len", sel)),
-			app("<=", app("s.len", sel), app("s.cap", sel)), implies(eq(app("s.ref", sel), "0"), eq(app("s.cap", sel), "0")))
+			app("<=", app("s.len", sel), app("s.cap", sel)), app("<=", app("s.cap", sel), "281474976710656"), implies(eq(app("s.ref", sel), "0"), eq(app("s.cap", sel), "0")))
 	case "Any":
 		body = and(app("is_wf_any", sel), implies(app("is_ptr_tag", sel), app("<", app("a.i", sel), s.alloc0)))
 	case "Int":
@@ -371,10 +375,20 @@ func (s *Session) relevantFacts(o *Obligation) []string {
 // query renders the SMT-LIB text of one obligation.
 func (s *Session) query(o *Obligation, specDefs string) string {
 	q := s.queryRaw(o, specDefs)
-	for _, sb := range s.subst {
-		q = strings.ReplaceAll(q, sb[0], sb[1])
+	if len(s.subst) == 0 {
+		return q
 	}
-	return q
+	lines := strings.Split(q, "\n")
+	for i, l := range lines {
+		if !strings.HasPrefix(l, "(assert") {
+			continue
+		}
+		for _, sb := range s.subst {
+			l = replaceSymOrTerm(l, sb[0], sb[1])
+		}
+		lines[i] = l
+	}
+	return strings.Join(lines, "\n")
 }
 
 func (s *Session) queryRaw(o *Obligation, specDefs string) string {
@@ -471,4 +485,12 @@ func canonKey(t types.Type) string {
 		}
 	}
 	return typeKey(t)
+}
+
+// replaceSymOrTerm substitutes a term; a bare symbol is only replaced at symbol boundaries.
+func replaceSymOrTerm(t, from, to string) string {
+	if strings.HasPrefix(from, "(") {
+		return strings.ReplaceAll(t, from, to)
+	}
+	return replaceSym(t, from, to)
 }
